@@ -163,6 +163,26 @@ func TestC16(t *testing.T) {
 			if d := diffCanon(ref, canonical(prep(ren), names)); d != "" {
 				return "consistently renaming the steps changes more than the names: " + d
 			}
+			// 4. the verdict on an invalid text is deterministic too: one single-point corruption of the
+			// program (chosen by the case's seeds), prepared four times and once with its keys permuted
+			if progs, descs := vcase.Corruptions(c.Main); len(progs) > 0 {
+				k := seeds[23] % len(progs)
+				first := prep(progs[k]).PrepareErr != ""
+				st.Record(map[string]any{"base": c, "transformation": "corrupted-verdict", "corruption": descs[k]}, true, []string{"transformation:corrupted-verdict"})
+				for i := 0; i < 4; i++ {
+					prog := progs[k]
+					if i == 3 {
+						prog = vcase.Permute(progs[k], permFrom(seeds[16:]))
+					}
+					a := prep(prog)
+					if owner, _ := anomaly(a); owner != "" {
+						break
+					}
+					if (a.PrepareErr != "") != first {
+						return fmt.Sprintf("the same invalid text (%s) is rejected by one preparation and accepted by another", descs[k].Desc)
+					}
+				}
+			}
 			return ""
 		})
 }
